@@ -125,55 +125,65 @@ def KState.checkDeclaration (s : KState) (creator : Option Key) (path : String) 
 def KConfig.forbiddenTarget (cfg : KConfig) (path : String) (st : FileState) : Bool :=
   cfg.targets.contains path && Enums.targetForbiddenStates.contains st
 
-/-- `Workflow._declare_file` -/
-def KState.declareFile (s : KState) (cfg : KConfig) (creator : Key) (path : String) (st : FileState) : M KState := do
-  if !Enums.declarableStates.contains st then throw .consistency
+/-- The guards of `Workflow._declare_file`, in the order the code applies them. -/
+def KState.declareFileChecks (s : KState) (cfg : KConfig) (creator : Key) (path : String) (st : FileState) : M Unit := do
   if st = .volatile ∧ path.endsWith "/" then graphErr "volatile directory"
   if creator.kind ≠ .st then
     if (← s.owningTree path).isSome then graphErr "static tree owns path"
   if cfg.forbiddenTarget path st then graphErr "forbidden target"
   if path.startsWith (stepupDir ++ "/") then graphErr "under .stepup"
   if !fileLabelOk path then throw .path
-  let s ← s.create (fileKey path) (some creator) (.file st)
-  if st = .volatile then
-    if (s.sinksOf (fileKey path)).any fun k => !(s.isDetached k) then graphErr "volatile input"
-  pure s
+
+def KState.declareFileGuard (s : KState) (cfg : KConfig) (creator : Key) (path : String) (st : FileState) : M Unit :=
+  if Enums.declarableStates.contains st then s.declareFileChecks cfg creator path st else throw .consistency
+
+/-- A volatile output may not be an input of an attached step. -/
+def KState.volatileSinkCheck (s : KState) (path : String) (st : FileState) : M KState :=
+  if st = .volatile ∧ ((s.sinksOf (fileKey path)).any fun k => !(s.isDetached k)) then graphErr "volatile input"
+  else pure s
+
+/-- `Workflow._declare_file` -/
+def KState.declareFile (s : KState) (cfg : KConfig) (creator : Key) (path : String) (st : FileState) : M KState := do
+  s.declareFileGuard cfg creator path st
+  let s1 ← s.create (fileKey path) (some creator) (.file st)
+  s1.volatileSinkCheck path st
+
+/-- Who declares `path` static for `creator`: the owning tree when there is one (which must then
+belong to `creator`), else `creator`; `none` when the declaration already exists (no-op). -/
+def KState.staticDeclarer (s : KState) (creator : Key) (path : String) : M (Option Key) := do
+  let declarer ← if creator.kind ≠ .st then
+      (do match ← s.owningTree path with
+          | some t =>
+            if (s.find? t).bind (·.creator) ≠ some creator then graphErr "static tree file" else pure t
+          | none => pure creator)
+    else pure creator
+  if ← s.checkDeclaration (some declarer) path .static then pure (some declarer) else pure none
+
+/-- The declarations `declare_static_files` still has to make, decided on the state before any
+of them is made. -/
+def KState.staticTodo (s : KState) (creator : Key) (paths : List String) : M (List (Key × String)) := do
+  let ds ← (normPaths paths).mapM fun p => do pure (p, ← s.staticDeclarer creator p)
+  pure (ds.filterMap fun (p, d) => d.map fun k => (k, p))
+
+def KState.declareAll (s : KState) (cfg : KConfig) (todo : List (Key × String)) (st : FileState) : M KState :=
+  todo.foldlM (fun acc dp => acc.declareFile cfg dp.1 dp.2 st) s
 
 /-- `Workflow.declare_static_files`; returns the paths whose hashes must be checked. -/
 def KState.declareStaticFiles (s : KState) (cfg : KConfig) (creator : Key) (paths : List String) :
     M (KState × List String) := do
-  let paths := normPaths paths
-  let mut toDeclare : List (Key × String) := []
-  for path in paths do
-    let mut declarer := creator
-    if creator.kind ≠ .st then
-      match ← s.owningTree path with
-      | some t =>
-        let tc := (s.find? t).bind (·.creator)
-        if tc ≠ some creator then graphErr "static tree file"
-        declarer := t
-      | none => pure ()
-    if ← s.checkDeclaration (some declarer) path .static then
-      toDeclare := toDeclare ++ [(declarer, path)]
-  let mut st := s
-  for (d, p) in toDeclare do
-    st ← st.declareFile cfg d p .unconfirmed
-  pure (st, toDeclare.map (·.2))
+  let todo ← s.staticTodo creator paths
+  let st ← s.declareAll cfg todo .unconfirmed
+  pure (st, todo.map (·.2))
 
 def hasWildcards (p : String) : Bool := p.any fun c => c = '*' ∨ c = '?' ∨ c = '['
 
-/-- `Workflow.register_static_tree` -/
-def KState.registerStaticTree (s : KState) (cfg : KConfig) (creator : Key) (path : String) :
-    M (KState × List String) := do
-  if hasWildcards path ∨ (path.splitOn "${*").length > 1 then throw .consistency
-  if path = stepupDir ∨ path.startsWith (stepupDir ++ "/") then graphErr "tree under .stepup"
-  let path := addSlash path
-  if path = "./" ∨ path = "" then graphErr "root tree"
-  if path = "/" then graphErr "fs root tree"
+/-- The guards of `register_static_tree` up to the creation of the tree node: `none` = no-op
+(the creator's own tree already covers the path), `some handover` = the attached files under the
+path that the tree takes over. -/
+def KState.treeGuard (s : KState) (creator : Key) (path : String) : M (Option (List Key)) := do
   match ← s.owningTree path with
   | some t =>
-    let tc := (s.find? t).bind (·.creator)
-    if tc = some creator then return (s, [])
+    if (s.find? t).bind (·.creator) = some creator then return none
     if t.label = path then graphErr "duplicate tree"
     graphErr "subdirectory of tree"
   | none => pure ()
@@ -181,18 +191,42 @@ def KState.registerStaticTree (s : KState) (cfg : KConfig) (creator : Key) (path
     graphErr "parent of tree"
   let under := (s.nodes.filter fun n => n.key.kind = .file ∧ !n.detached ∧ n.key.label.startsWith path)
   let under := under.mergeSort fun a b => decide (a.key.label ≤ b.key.label)
-  let mut handover : List Key := []
-  for n in under do
+  let hs ← under.mapM fun n =>
     if n.fstate.role? ≠ some .static then graphErr "tree contains product"
-    if n.creator ≠ some creator then graphErr "tree contains file of other creator"
-    handover := handover ++ [n.key]
-  let tk := treeKey path
-  let mut st ← s.create tk (some creator) .tree
-  for k in handover do
-    -- plain `UPDATE node SET creator = ?`: creator-kind trigger only
-    st := st.modify k fun n => { n with creator := some tk }
-  let adopt := (st.nodes.filter fun n => n.key.kind = .file ∧ n.detached ∧ n.key.label.startsWith path).map (·.key.label)
-  st.declareStaticFiles cfg tk adopt
+    else if n.creator ≠ some creator then graphErr "tree contains file of other creator"
+    else pure n.key
+  pure (some hs)
+
+/-- plain `UPDATE node SET creator = ?` for the files handed over to the tree -/
+def KState.handOver (s : KState) (tk : Key) (hs : List Key) : KState :=
+  hs.foldl (fun st k => st.modify k fun n => { n with creator := some tk }) s
+
+def KState.detachedFilesUnder (s : KState) (path : String) : List String :=
+  (s.nodes.filter fun n => n.key.kind = .file ∧ n.detached ∧ n.key.label.startsWith path).map (·.key.label)
+
+/-- The path checks of `register_static_tree` (on the path as given). -/
+def treePathGuard (path : String) : M Unit := do
+  if hasWildcards path ∨ (path.splitOn "${*").length > 1 then throw .consistency
+  if path = stepupDir ∨ path.startsWith (stepupDir ++ "/") then graphErr "tree under .stepup"
+  let path := addSlash path
+  if path = "./" ∨ path = "" then graphErr "root tree"
+  if path = "/" then graphErr "fs root tree"
+
+/-- `register_static_tree` after its guards: create the tree, hand over, declare detached files. -/
+def KState.registerTreeBody (s : KState) (cfg : KConfig) (creator : Key) (path : String) :
+    Option (List Key) → M (KState × List String)
+  | none => pure (s, [])
+  | some hs => do
+    let s1 ← s.create (treeKey path) (some creator) .tree
+    let s2 := s1.handOver (treeKey path) hs
+    s2.declareStaticFiles cfg (treeKey path) (s2.detachedFilesUnder path)
+
+/-- `Workflow.register_static_tree` -/
+def KState.registerStaticTree (s : KState) (cfg : KConfig) (creator : Key) (path : String) :
+    M (KState × List String) := do
+  treePathGuard path
+  let g ← s.treeGuard creator (addSlash path)
+  s.registerTreeBody cfg creator (addSlash path) g
 
 /-! ## Supplying inputs -/
 
@@ -211,35 +245,55 @@ def Supply.avail (i : Supply) : Avail :=
   else if i.state = .built ∨ i.state = .confirmed then .available
   else .unavailable
 
+/-- The owning tree `_resolve_supply_file` looks up: only for a missing or detached node. -/
+def KState.resolveTree (s : KState) (path : String) : Option Node → M (Option Key)
+  | some n => if n.detached then s.owningTree path else pure none
+  | none => s.owningTree path
+
+def adoptGuard (cfg : KConfig) (path : String) : M Unit := do
+  if cfg.forbiddenTarget path .unconfirmed then graphErr "forbidden target"
+  if !fileLabelOk path then throw .path
+
+/-- An owning static tree adopts the file as UNCONFIRMED. -/
+def KState.adoptByTree (s : KState) (cfg : KConfig) (path : String) (t : Key) : M (KState × FileState × Bool) := do
+  adoptGuard cfg path
+  let s1 ← s.create (fileKey path) (some t) (.file .unconfirmed)
+  pure (s1, FileState.unconfirmed, false)
+
+/-- A missing (or orphaned) file becomes an UNDECLARED detached placeholder. -/
+def KState.placeholder (s : KState) (path : String) : M (KState × FileState × Bool) := do
+  let s1 ← s.create (fileKey path) none (.file .undeclared)
+  pure (s1, FileState.undeclared, true)
+
+def useGuard (cfg : KConfig) (path : String) (n : Node) : M Unit := do
+  if n.fstate = .volatile then graphErr "input is volatile"
+  if cfg.forbiddenTarget path n.fstate then graphErr "forbidden target"
+
+def KState.resolveWith (s : KState) (cfg : KConfig) (path : String) :
+    Option Key → Option Node → M (KState × FileState × Bool)
+  | some t, _ => s.adoptByTree cfg path t
+  | none, none => do
+    if !fileLabelOk path then throw .path
+    s.placeholder path
+  | none, some n =>
+    if n.creator.isNone then s.placeholder path
+    else do
+      useGuard cfg path n
+      pure (s, n.fstate, n.detached)
+
+/-- The node part of `Workflow._resolve_supply_file`: find or create the file node; returns the
+state the code goes on with and whether it treats the node as detached. -/
+def KState.resolveNode (s : KState) (cfg : KConfig) (path : String) : M (KState × FileState × Bool) := do
+  let tree ← s.resolveTree path (s.find? (fileKey path))
+  s.resolveWith cfg path tree (s.find? (fileKey path))
+
 /-- `Workflow._resolve_supply_file` -/
 def KState.resolveSupply (s : KState) (cfg : KConfig) (step : Key) (path : String) (requireNew : Bool) :
     M (KState × Supply) := do
-  let fk := fileKey path
-  let node := s.find? fk
-  let tree ← match node with
-    | some n => if n.detached then s.owningTree path else pure none
-    | none => s.owningTree path
-  let (s, state, detached) ← match tree, node with
-    | some t, _ => do
-      if cfg.forbiddenTarget path .unconfirmed then graphErr "forbidden target"
-      if !fileLabelOk path then throw .path
-      let s ← s.create fk (some t) (.file .unconfirmed)
-      pure (s, FileState.unconfirmed, false)
-    | none, none => do
-      if !fileLabelOk path then throw .path
-      let s ← s.create fk none (.file .undeclared)
-      pure (s, FileState.undeclared, true)
-    | none, some n =>
-      if n.creator.isNone then do
-        let s ← s.create fk none (.file .undeclared)
-        pure (s, FileState.undeclared, true)
-      else do
-        if n.fstate = .volatile then graphErr "input is volatile"
-        if cfg.forbiddenTarget path n.fstate then graphErr "forbidden target"
-        pure (s, n.fstate, n.detached)
-  let newRel := !s.hasDep fk step
+  let (s1, state, detached) ← s.resolveNode cfg path
+  let newRel := !s1.hasDep (fileKey path) step
   if !newRel ∧ requireNew then graphErr "supplying file already exists"
-  pure (s, { file := fk, state := state, detached := detached, newRel := newRel })
+  pure (s1, { file := fileKey path, state := state, detached := detached, newRel := newRel })
 
 /-- Recursive sinks of `k`, `k` included (`RECURSE_SINKS`, a `UNION` recursion). -/
 def KState.sinkClosure (s : KState) (k : Key) : List Key :=
@@ -247,22 +301,24 @@ def KState.sinkClosure (s : KState) (k : Key) : List Key :=
     s.deps.foldl (fun acc d => if acc.contains d.src ∧ !acc.contains d.snk then acc ++ [d.snk] else acc) acc
   (List.range (s.deps.length + 1)).foldl (fun acc _ => step acc) [k]
 
+/-- Resolve all supplied paths in order, threading the state. -/
+def KState.resolveAll (s : KState) (cfg : KConfig) (step : Key) (paths : List String) (requireNew : Bool) :
+    M (KState × List Supply) :=
+  paths.foldlM (fun (acc : KState × List Supply) p => do
+    let (s', i) ← acc.1.resolveSupply cfg step p requireNew
+    pure (s', acc.2 ++ [i])) (s, [])
+
+def KState.insertNewEdges (s : KState) (step : Key) (infos : List Supply) : M KState :=
+  (infos.filter (·.newRel)).foldlM (fun st i => st.insertDep i.file step) s
+
 /-- `Workflow._supply_files` -/
 def KState.supplyFiles (s : KState) (cfg : KConfig) (step : Key) (paths : List String) (requireNew : Bool) :
     M (KState × List Supply) := do
-  let mut st := s
-  let mut infos : List Supply := []
-  for p in paths do
-    let (s', i) ← st.resolveSupply cfg step p requireNew
-    st := s'
-    infos := infos ++ [i]
+  let (s1, infos) ← s.resolveAll cfg step paths requireNew
   let newFiles := (infos.filter (·.newRel)).map (·.file)
-  if !newFiles.isEmpty then
-    let closure := st.sinkClosure step
-    if newFiles.any closure.contains then throw .cyclic
-  for i in infos do
-    if i.newRel then st ← st.insertDep i.file step
-  pure (st, infos)
+  if !newFiles.isEmpty ∧ newFiles.any (s1.sinkClosure step).contains then throw .cyclic
+  let s2 ← s1.insertNewEdges step infos
+  pure (s2, infos)
 
 /-- `Node.add_source(source)` with the cycle check: `file.add_source(step)`. -/
 def KState.addSourceChecked (s : KState) (snk src : Key) : M KState := do
@@ -333,32 +389,44 @@ def addEnvDeps (cfg : KConfig) (n : Node) (names : List String) : Node :=
   names.foldl (fun n name =>
     { n with envs := (n.envs.filter (·.1 ≠ name)) ++ [(name, envValue cfg name, false)] }) n
 
-/-- `Workflow.define_step`; returns the paths to check. -/
-def KState.defineStep (s : KState) (cfg : KConfig) (creator : Key) (d : StepDecl) : M (KState × List String) := do
+/-- Declare one product of a step and connect it: `_declare_file` + `file.add_source(step)`. -/
+def KState.declareProduct (s : KState) (cfg : KConfig) (step : Key) (path : String) (st : FileState) : M KState := do
+  let s1 ← s.declareFile cfg step path st
+  s1.addSourceChecked (fileKey path) step
+
+def KState.declareProducts (s : KState) (cfg : KConfig) (step : Key) (paths : List String) (st : FileState) : M KState :=
+  paths.foldlM (fun acc p => acc.declareProduct cfg step p st) s
+
+/-- The checks of `define_step` that come before `try_recycle`; returns the step key. -/
+def KState.defineGuard (s : KState) (cfg : KConfig) (creator : Key) (d : StepDecl) : M Key := do
   if creator = rootKey ∧ (s.products rootKey).any (·.key.kind = .step) then graphErr "boot step already defined"
-  let d := { d with inp := normPaths d.inp, env := normPaths d.env, out := normPaths d.out, vol := normPaths d.vol }
-  for v in d.vol do
-    if cfg.forbiddenTarget v .volatile then graphErr "forbidden target"
+  if d.vol.any fun v => cfg.forbiddenTarget v .volatile then graphErr "forbidden target"
   if d.inp.any (·.endsWith "/") then graphErr "directory input"
   if d.env.any fun e => d.overrides.any (·.1 = e) then graphErr "env and override overlap"
   if d.overrides.any fun o => Enums.reservedEnvVars.contains o.1 then graphErr "reserved override"
   let label ← match stepLabel d.cmd d.workdir with
     | some l => pure l
     | none => throw .value
-  let sk := stepKey label
   s.raiseIfGlobMatch (d.out ++ d.vol)
-  -- try_recycle
-  match s.find? sk with
-  | some n =>
-    if n.detached ∧ s.canRecycle sk d then
-      let s ← s.reattach sk creator
-      -- after_recycle
-      let s := s.modify sk fun n => { n with need := d.need, shell := d.shell, holding := 0 }
-      let s ← if n.sstate = .failed then s.markStepPending sk else pure s
-      let s := s.modify sk fun n => { n with resources := d.resources, overrides := d.overrides }
-      return (s, s.unconfirmedTreeInputs sk)
-  | none => pure ()
-  -- _raise_if_step_exists
+  pure (stepKey label)
+
+/-- `Step.after_recycle`: new mandatory/shell flags, holding reset, FAILED back to PENDING. -/
+def KState.afterRecycle (s : KState) (sk : Key) (d : StepDecl) (n : Node) : M KState :=
+  if n.sstate = .failed then
+    (s.modify sk fun n => { n with need := d.need, shell := d.shell, holding := 0 }).markStepPending sk
+  else pure (s.modify sk fun n => { n with need := d.need, shell := d.shell, holding := 0 })
+
+def KState.setStepExtras (s : KState) (sk : Key) (d : StepDecl) : KState :=
+  s.modify sk fun n => { n with resources := d.resources, overrides := d.overrides }
+
+/-- `Trellis.try_recycle` for a step + `Step.after_recycle`. -/
+def KState.recycleStep (s : KState) (sk creator : Key) (d : StepDecl) (n : Node) : M KState := do
+  let s1 ← s.reattach sk creator
+  let s3 ← s1.afterRecycle sk d n
+  pure (s3.setStepExtras sk d)
+
+/-- The checks of `define_step` between the recycle short-circuit and the creation of the step. -/
+def KState.newStepGuard (s : KState) (sk : Key) (d : StepDecl) : M Unit := do
   match s.find? sk with
   | some n =>
     let hasCreator : Bool := match n.creator with
@@ -371,19 +439,32 @@ def KState.defineStep (s : KState) (cfg : KConfig) (creator : Key) (d : StepDecl
   for v in d.vol do
     let _ ← s.checkDeclaration none v .volatile
   if d.out.any d.vol.contains then graphErr "output and volatile overlap"
-  let s ← s.create sk (some creator) (.step { need := d.need, shell := d.shell, safe := d.safe })
-  let s := s.modify sk fun n => { n with resources := d.resources, overrides := d.overrides }
-  let (s, infos) ← s.supplyFiles cfg sk d.inp true
+
+/-- The creation branch of `define_step`. -/
+def KState.createStep (s : KState) (cfg : KConfig) (sk creator : Key) (d : StepDecl) : M (KState × List String) := do
+  let s1 ← s.create sk (some creator) (.step { need := d.need, shell := d.shell, safe := d.safe })
+  let (s3, infos) ← (s1.setStepExtras sk d).supplyFiles cfg sk d.inp true
   let unconfirmed := (infos.filter fun i => i.avail = .unconfirmed).map (·.file.label)
-  let s := s.modify sk fun n => addEnvDeps cfg n d.env
-  let mut st := s
-  for o in d.out do
-    st ← st.declareFile cfg sk o .planned
-    st ← st.addSourceChecked (fileKey o) sk
-  for v in d.vol do
-    st ← st.declareFile cfg sk v .volatile
-    st ← st.addSourceChecked (fileKey v) sk
-  pure (st, sortStrs unconfirmed)
+  let s4 := s3.modify sk fun n => addEnvDeps cfg n d.env
+  let s5 ← s4.declareProducts cfg sk d.out .planned
+  let s6 ← s5.declareProducts cfg sk d.vol .volatile
+  pure (s6, sortStrs unconfirmed)
+
+/-- `Workflow.define_step`; returns the paths to check. -/
+def KState.defineStep (s : KState) (cfg : KConfig) (creator : Key) (d : StepDecl) : M (KState × List String) := do
+  let d := { d with inp := normPaths d.inp, env := normPaths d.env, out := normPaths d.out, vol := normPaths d.vol }
+  let sk ← s.defineGuard cfg creator d
+  match s.find? sk with
+  | some n =>
+    if n.detached ∧ s.canRecycle sk d then do
+      let s1 ← s.recycleStep sk creator d n
+      pure (s1, s1.unconfirmedTreeInputs sk)
+    else do
+      s.newStepGuard sk d
+      s.createStep cfg sk creator d
+  | none => do
+    s.newStepGuard sk d
+    s.createStep cfg sk creator d
 
 /-! ## `amend_step` -/
 
@@ -392,57 +473,59 @@ structure AmendResult where
   unfresh : List String
   toCheck : List String
 
-/-- `Workflow.amend_step`; `concurrent` lists the producers for which `ran_concurrently` holds. -/
-def KState.amendStep (s : KState) (cfg : KConfig) (step : Key) (inp env out vol : List String)
-    (concurrent : List Key) : M (KState × AmendResult) := do
-  let inp := normPaths inp
-  let out := normPaths out
-  let vol := normPaths vol
-  if inp.any (·.endsWith "/") then graphErr "directory input"
-  let (s, infos) ← s.supplyFiles cfg step inp false
-  let mut unavailable : List String := []
-  let mut unfresh : List String := []
-  let mut unconfirmed : List String := []
-  let mut dynEdges : List (Key × Key) := []
-  for i in infos do
-    match i.avail with
-    | .unavailable => unavailable := unavailable ++ [i.file.label]
-    | .unconfirmed => unconfirmed := unconfirmed ++ [i.file.label]
-    | .available =>
-      if i.state = .built then
-        match (s.find? i.file).bind (·.creator) with
-        | some p => if p.kind = .step ∧ s.has p ∧ concurrent.contains p then unfresh := unfresh ++ [i.file.label]
-        | none => pure ()
-    if i.newRel then dynEdges := dynEdges ++ [(i.file, step)]
-  -- amend_env_deps: INSERT OR IGNORE, dynamic = 1, names in env_overrides skipped
-  let s := s.modify step fun n =>
+/-- Classification of the supplied inputs of `amend_step`. -/
+def KState.amendClassify (s : KState) (infos : List Supply) (concurrent : List Key) : AmendResult :=
+  let unavailable := (infos.filter fun i => i.avail = .unavailable).map (·.file.label)
+  let unconfirmed := (infos.filter fun i => i.avail = .unconfirmed).map (·.file.label)
+  let unfresh := (infos.filter fun i => decide (i.avail = .available) && decide (i.state = .built) &&
+    (match (s.find? i.file).bind (·.creator) with
+     | some p => p.kind = .step && s.has p && concurrent.contains p
+     | none => false)).map (·.file.label)
+  { unavailable := sortStrs unavailable, unfresh := sortStrs unfresh, toCheck := sortStrs unconfirmed }
+
+/-- `Step.amend_env_deps`: INSERT OR IGNORE, dynamic = 1, names in env_overrides skipped. -/
+def KState.amendEnv (s : KState) (cfg : KConfig) (step : Key) (env : List String) : KState :=
+  s.modify step fun n =>
     env.foldl (fun n name =>
       if n.overrides.any (·.1 = name) ∨ n.envs.any (·.1 = name) then n
       else { n with envs := n.envs ++ [(name, envValue cfg name, true)] }) n
-  let mut out' : List String := []
-  for o in out do
-    if ← s.checkDeclaration (some step) o .output then out' := out' ++ [o]
-  let mut vol' : List String := []
-  for v in vol do
-    if ← s.checkDeclaration (some step) v .volatile then vol' := vol' ++ [v]
-  if out'.any vol'.contains then graphErr "output and volatile overlap"
-  s.raiseIfGlobMatch (out' ++ vol')
-  let mut st := s
-  for o in out' do
-    st ← st.declareFile cfg step o .planned
-    st ← st.addSourceChecked (fileKey o) step
-    dynEdges := dynEdges ++ [(step, fileKey o)]
-  for v in vol' do
-    st ← st.declareFile cfg step v .volatile
-    st ← st.addSourceChecked (fileKey v) step
-    dynEdges := dynEdges ++ [(step, fileKey v)]
-  for (a, b) in dynEdges do
-    st := st.setDynamic a b true
-  pure (st, { unavailable := sortStrs unavailable, unfresh := sortStrs unfresh, toCheck := sortStrs unconfirmed })
 
-/-- `Workflow.register_nglob` -/
-def KState.registerNglob (s : KState) (step : Key) (pattern : String) (found : List String) : M KState := do
-  let found := normPaths found
+/-- The amended products that are not yet declared by this step in that role (collisions raise). -/
+def KState.newProducts (s : KState) (step : Key) (paths : List String) (role : FileRole) : M (List String) :=
+  paths.filterMapM fun p => do
+    if ← s.checkDeclaration (some step) p role then pure (some p) else pure none
+
+def KState.markDynamic (s : KState) (edges : List (Key × Key)) : KState :=
+  edges.foldl (fun st e => st.setDynamic e.1 e.2 true) s
+
+def dirInputGuard (inp : List String) : M Unit :=
+  if inp.any (·.endsWith "/") then graphErr "directory input" else pure ()
+
+def overlapGuard (out vol : List String) : M Unit :=
+  if out.any vol.contains then graphErr "output and volatile overlap" else pure ()
+
+/-- `amend_step` after the inputs are supplied: env vars, new outputs and volatiles, dynamic marks. -/
+def KState.amendProducts (s1 : KState) (cfg : KConfig) (step : Key) (infos : List Supply) (env out vol : List String)
+    (concurrent : List Key) : M (KState × AmendResult) := do
+  let out' ← (s1.amendEnv cfg step env).newProducts step (normPaths out) .output
+  let vol' ← (s1.amendEnv cfg step env).newProducts step (normPaths vol) .volatile
+  overlapGuard out' vol'
+  (s1.amendEnv cfg step env).raiseIfGlobMatch (out' ++ vol')
+  let s3 ← (s1.amendEnv cfg step env).declareProducts cfg step out' .planned
+  let s4 ← s3.declareProducts cfg step vol' .volatile
+  let dynEdges := ((infos.filter (·.newRel)).map fun i => (i.file, step)) ++
+    (out'.map fun o => (step, fileKey o)) ++ (vol'.map fun v => (step, fileKey v))
+  pure (s4.markDynamic dynEdges, s1.amendClassify infos concurrent)
+
+/-- `Workflow.amend_step`; `concurrent` lists the producers for which `ran_concurrently` holds. -/
+def KState.amendStep (s : KState) (cfg : KConfig) (step : Key) (inp env out vol : List String)
+    (concurrent : List Key) : M (KState × AmendResult) := do
+  dirInputGuard (normPaths inp)
+  let (s1, infos) ← s.supplyFiles cfg step (normPaths inp) false
+  s1.amendProducts cfg step infos env out vol concurrent
+
+/-- The guards of `register_nglob` on the normalised matches. -/
+def KState.nglobGuard (s : KState) (found : List String) : M Unit := do
   for p in found do
     match s.find? (fileKey p) with
     | some n =>
@@ -450,24 +533,29 @@ def KState.registerNglob (s : KState) (step : Key) (pattern : String) (found : L
         graphErr "glob matches product"
     | none => pure ()
   if found.any (·.startsWith (stepupDir ++ "/")) then graphErr "glob under .stepup"
-  pure <| s.modify step fun n => { n with nglobs := n.nglobs ++ [(pattern, found)] }
+
+/-- `Workflow.register_nglob` -/
+def KState.registerNglob (s : KState) (step : Key) (pattern : String) (found : List String) : M KState := do
+  s.nglobGuard (normPaths found)
+  pure <| s.modify step fun n => { n with nglobs := n.nglobs ++ [(pattern, normPaths found)] }
+
+def KState.registerTrees (s : KState) (cfg : KConfig) (creator : Key) (trees : List String) :
+    M (KState × List String) :=
+  trees.foldlM (fun (acc : KState × List String) t => do
+    let (s', chk) ← acc.1.registerStaticTree cfg creator t
+    pure (s', acc.2 ++ chk)) (s, [])
+
+def KState.registerNglobs (s : KState) (creator : Key) (patterns : List (String × List String)) : M KState :=
+  patterns.foldlM (fun st pm => st.registerNglob creator pm.1 pm.2) s
 
 /-- The body of `DirectorHandler.declare_static`: trees, then files, then patterns, all in one
 transaction (an error anywhere rejects the whole request). -/
 def KState.declareStaticRequest (s : KState) (cfg : KConfig) (creator : Key) (trees files : List String)
     (patterns : List (String × List String)) : M (KState × List String) := do
-  let mut st := s
-  let mut toCheck : List String := []
-  for t in trees do
-    let (s', chk) ← st.registerStaticTree cfg creator t
-    st := s'
-    toCheck := toCheck ++ chk
-  let (s', chk) ← st.declareStaticFiles cfg creator files
-  st := s'
-  toCheck := toCheck ++ chk
-  for (p, ms) in patterns do
-    st ← st.registerNglob creator p ms
-  pure (st, toCheck)
+  let (s1, chk1) ← s.registerTrees cfg creator trees
+  let (s2, chk2) ← s1.declareStaticFiles cfg creator files
+  let s3 ← s2.registerNglobs creator patterns
+  pure (s3, chk1 ++ chk2)
 
 /-! ## Hash updates -/
 
@@ -479,47 +567,51 @@ def KState.creatorStep (s : KState) (f : Key) : Option Key :=
   | some c => if c.kind = .step ∧ s.has c then some c else none
   | none => none
 
+/-- Mark the creating step of a file pending, when its creator is a step. -/
+def KState.pendCreator (s : KState) (f : Key) : M KState :=
+  match s.creatorStep f with
+  | some c => s.markStepPending c
+  | none => pure s
+
+def KState.fileState? (s : KState) (f : Key) : Option FileState := (s.find? f).map (·.fstate)
+
 /-- `Workflow.handle_updated_file` -/
 def KState.handleUpdated (s : KState) (f : Key) : M KState :=
-  match (s.find? f).map (·.fstate) with
-  | some FileState.confirmed => s.markConsumersPending f
-  | some FileState.planned | some FileState.outdated =>
-    match s.creatorStep f with
-    | some c => s.markStepPending c
-    | none => pure s
-  | _ => pure s
+  if s.fileState? f = some .confirmed then s.markConsumersPending f
+  else if s.fileState? f = some .planned ∨ s.fileState? f = some .outdated then s.pendCreator f
+  else pure s
 
 /-- `Workflow.handle_deleted_file` -/
 def KState.handleDeleted (s : KState) (f : Key) : M KState := do
-  let s ← if (s.find? f).map (·.fstate) = some .planned then
-      match s.creatorStep f with
-      | some c => s.markStepPending c
-      | none => pure s
-    else pure s
+  let s ← if s.fileState? f = some .planned then s.pendCreator f else pure s
   s.markConsumersPending f
 
-/-- `Workflow.update_file_hashes`; `none` stands for the unknown hash. -/
+structure HashRec where
+  key : Key
+  newState : FileState
+  newHash : Option Nat
+  action : Option Action
+
+/-- The transition of one requested path (`ConsistencyError` when the path has no node or the
+combination is not in the table). -/
+def KState.hashRec (s : KState) (cause : Cause) (u : String × Option Nat) : M HashRec :=
+  match s.find? (fileKey u.1) with
+  | none => throw .consistency
+  | some n =>
+    match lookupTransition cause n.fstate u.2.isSome with
+    | none => throw .consistency
+    | some (new, act) => pure { key := fileKey u.1, newState := new, newHash := u.2, action := act }
+
+/-- `Workflow.update_file_hashes`; `none` stands for the unknown hash.  All rows are written
+first (`executemany`), then the follow-up actions run in the order updated, deleted, completed. -/
 def KState.updateFileHashes (s : KState) (updates : List (String × Option Nat)) (cause : Cause) : M KState := do
   if updates.isEmpty then return s
   let updates := updates.mergeSort fun a b => decide (a.1 ≤ b.1)
-  let mut recs : List (Key × FileState × Option Nat × Option Action) := []
-  for (p, h) in updates do
-    match s.find? (fileKey p) with
-    | none => throw .consistency
-    | some n =>
-      match lookupTransition cause n.fstate h.isSome with
-      | none => throw .consistency
-      | some (new, act) => recs := recs ++ [(fileKey p, new, h, act)]
-  let mut st := s
-  for (k, new, h, _) in recs do
-    st ← st.writeFile k new (some h)
-  for (k, _, _, act) in recs do
-    if act = some .updated then st ← st.handleUpdated k
-  for (k, _, _, act) in recs do
-    if act = some .deleted then st ← st.handleDeleted k
-  for (k, _, _, act) in recs do
-    if act = some .completed then st ← st.markConsumersPending k
-  pure st
+  let recs ← updates.mapM (s.hashRec cause)
+  let st ← recs.foldlM (fun st r => st.writeFile r.key r.newState (some r.newHash)) s
+  let st ← (recs.filter fun r => r.action = some .updated).foldlM (fun st r => st.handleUpdated r.key) st
+  let st ← (recs.filter fun r => r.action = some .deleted).foldlM (fun st r => st.handleDeleted r.key) st
+  (recs.filter fun r => r.action = some .completed).foldlM (fun st r => st.markConsumersPending r.key) st
 
 /-! ## Step completion (`step.py`) -/
 
@@ -527,27 +619,39 @@ def KState.updateFileHashes (s : KState) (updates : List (String × Option Nat))
 def KState.detachCreatedSteps (s : KState) (step : Key) : M KState :=
   ((s.products step).filter (·.key.kind = .step)).foldlM (fun s p => s.detach p.key) s
 
+/-- Detach every product of `step` selected by `p` (the product list is read first, as the
+code's queries are). -/
+def KState.detachProductsWhere (s : KState) (step : Key) (p : Node → Bool) : M KState :=
+  ((s.products step).filter p).foldlM (fun s n => s.detach n.key) s
+
+/-- Drop the dynamic input edges, the dynamic environment variables and the glob registrations. -/
+def KState.dropDynamicInputs (s : KState) (step : Key) : KState :=
+  (s.deleteDeps fun d => d.snk = step ∧ d.dyn).modify step fun n =>
+    { n with envs := n.envs.filter fun e => !e.2.2, nglobs := [] }
+
+def KState.dynamicSinks (s : KState) (step : Key) : List Key :=
+  (s.deps.filter fun d => d.src = step ∧ d.dyn).map (·.snk)
+
+/-- One amended output: delete the edge and detach the file. -/
+def KState.dropDynamicSink (s : KState) (step k : Key) : M KState :=
+  (s.deleteDeps fun d => d.src = step ∧ d.snk = k).detach k
+
+def isStaticFileNode (n : Node) : Bool := n.key.kind = .file ∧ n.fstate.role? = some .static
+def isTreeNode (n : Node) : Bool := n.key.kind = .st
+
+/-- BUILT products of the step become OUTDATED (with propagation). -/
+def KState.outdateBuilt (s : KState) (step : Key) : M KState :=
+  ((s.products step).filter fun n => n.key.kind = .file ∧ n.fstate = .built).foldlM
+    (fun st n => st.markFileOutdated n.key) s
+
 /-- `Step.reset_for_rerun` -/
 def KState.resetForRerun (s : KState) (step : Key) : M KState := do
-  -- dynamic sources: delete dynamic_dep rows, then the edges
-  let s := s.deleteDeps fun d => d.snk = step ∧ d.dyn
-  -- dynamic env vars, nglobs
-  let s := s.modify step fun n => { n with envs := n.envs.filter fun e => !e.2.2, nglobs := [] }
-  -- dynamic sinks: delete edge, detach the sink
-  let dynSinks := (s.deps.filter fun d => d.src = step ∧ d.dyn).map (·.snk)
-  let mut st := s
-  for k in dynSinks do
-    st := st.deleteDeps fun d => d.src = step ∧ d.snk = k
-    st ← st.detach k
-  st ← st.detachCreatedSteps step
-  -- static file definitions of this step
-  for n in st.products step do
-    if n.key.kind = .file ∧ n.fstate.role? = some .static then st ← st.detach n.key
-  for n in st.products step do
-    if n.key.kind = .st then st ← st.detach n.key
-  for n in st.products step do
-    if n.key.kind = .file ∧ n.fstate = .built then st ← st.markFileOutdated n.key
-  pure st
+  let s1 := s.dropDynamicInputs step
+  let s2 ← (s1.dynamicSinks step).foldlM (fun st k => st.dropDynamicSink step k) s1
+  let s3 ← s2.detachCreatedSteps step
+  let s4 ← s3.detachProductsWhere step isStaticFileNode
+  let s5 ← s4.detachProductsWhere step isTreeNode
+  s5.outdateBuilt step
 
 /-- `Step.has_unavailable_dynamic_input` -/
 def KState.hasUnavailableDynamicInput (s : KState) (step : Key) : Bool :=
@@ -562,35 +666,59 @@ cap, FAILED afterwards. -/
 def deferOutcome (cap deferCount : Nat) : StepState :=
   if deferCount + 1 ≤ cap then .pending else .failed
 
+def KState.fileProducts (s : KState) (step : Key) : List Node :=
+  ((s.products step).filter (·.key.kind = .file)).mergeSort fun a b => decide (a.key.label ≤ b.key.label)
+
+/-- Failure branch of `mark_completed`: BUILT products become OUTDATED (plain `set_state`). -/
+def KState.outdateBuiltProducts (s : KState) (step : Key) : M KState :=
+  ((s.fileProducts step).filter (·.fstate = .built)).foldlM (fun st f => st.setFileState f.key .outdated) s
+
+/-- Success branch of `mark_completed`: OUTDATED products become BUILT and their consumers pending. -/
+def KState.rebuildOutdatedProducts (s : KState) (step : Key) : M KState :=
+  (s.fileProducts step).foldlM (fun st f =>
+    if (st.find? f.key).map (·.fstate) = some .outdated then do
+      let st ← st.setFileState f.key .built
+      st.markConsumersPending f.key
+    else pure st) s
+
+/-- Whether an unsuccessful completion that asks for a deferral is granted it. -/
+def KState.deferGranted (s : KState) (cfg : KConfig) (step : Key) (wantsDefer : Bool) : Bool :=
+  wantsDefer && deferOutcome cfg.deferCap (((s.find? step).map (·.deferCount)).getD 0) = .pending
+
+def KState.bumpDeferCount (s : KState) (step : Key) (wantsDefer : Bool) : KState :=
+  if wantsDefer then s.modify step fun n => { n with deferCount := n.deferCount + 1 } else s
+
+/-- The state written for an unsuccessful completion: PENDING (deferred) or FAILED. -/
+def KState.writeFailureState (s : KState) (step : Key) (granted : Bool) : M KState :=
+  if granted then s.setStepState step .pending (s.hasUnavailableDynamicInput step)
+  else s.setStepState step .failed
+
+def KState.detachCreatedIfFailed (s : KState) (step : Key) : M KState :=
+  if (s.find? step).map (·.sstate) = some .failed then s.detachCreatedSteps step else pure s
+
+/-- `mark_completed(None, wants_defer)` -/
+def KState.completeFailure (s : KState) (cfg : KConfig) (step : Key) (wantsDefer : Bool) : M KState := do
+  let s1 ← s.outdateBuiltProducts step
+  let s2 ← (s1.bumpDeferCount step wantsDefer).writeFailureState step (s1.deferGranted cfg step wantsDefer)
+  let s3 ← s2.detachCreatedIfFailed step
+  pure (s3.deleteHash step)
+
+/-- `mark_completed(new_hash, False)` -/
+def KState.completeSuccess (s : KState) (step : Key) (h : Nat) : M KState := do
+  let s1 ← s.setStepState step .succeeded
+  let s2 ← s1.rebuildOutdatedProducts step
+  pure (s2.setHash step h)
+
 /-- `Step.mark_completed(new_hash, wants_defer)`; returns `interrupted_defer`. -/
 def KState.markCompleted (s : KState) (cfg : KConfig) (step : Key) (newHash : Option Nat) (wantsDefer : Bool) :
-    M (KState × Bool) := do
-  let files := ((s.products step).filter (·.key.kind = .file)).mergeSort fun a b => decide (a.key.label ≤ b.key.label)
+    M (KState × Bool) :=
   match newHash with
-  | none =>
-    let mut st := s
-    for f in files do
-      if f.fstate = .built then st ← st.setFileState f.key .outdated
-    let mut interrupted := false
-    if wantsDefer then
-      let before := ((st.find? step).map (·.deferCount)).getD 0
-      st := st.modify step fun n => { n with deferCount := n.deferCount + 1 }
-      if deferOutcome cfg.deferCap before = .pending then
-        st ← st.setStepState step .pending (st.hasUnavailableDynamicInput step)
-      else
-        st ← st.setStepState step .failed
-        interrupted := true
-    else
-      st ← st.setStepState step .failed
-    if (st.find? step).map (·.sstate) = some .failed then st ← st.detachCreatedSteps step
-    pure (st.deleteHash step, interrupted)
-  | some h =>
-    let mut st ← s.setStepState step .succeeded
-    for f in files do
-      if (st.find? f.key).map (·.fstate) = some .outdated then
-        st ← st.setFileState f.key .built
-        st ← st.markConsumersPending f.key
-    pure (st.setHash step h, false)
+  | none => do
+    let st ← s.completeFailure cfg step wantsDefer
+    pure (st, wantsDefer && !s.deferGranted cfg step wantsDefer)
+  | some h => do
+    let st ← s.completeSuccess step h
+    pure (st, false)
 
 /-- `Step.hold` / `Step.release` -/
 def KState.hold (s : KState) (step : Key) : M KState := do
@@ -616,33 +744,38 @@ def KState.deleteDetached (s : KState) : M KState := do
       if !((st.sinksOf f.key).any fun k => !(st.isDetached k)) then st ← st.detach f.key
   st.deleteDetachedBase
 
+/-- One output of a reverted optional step: queue it (with its directory) and reset it. -/
+def KState.revertOutput (s : KState) (f : Key) : M KState :=
+  match s.find? f with
+  | some fn =>
+    if fn.key.kind = .file ∧ (fn.fstate = .volatile ∨ fn.fstate = .built ∨ fn.fstate = .outdated) then
+      let s := s.queueDelete f.label (if fn.fstate = .volatile then none else fn.fhash)
+      let s := s.markDirToBeDeleted (parentDir f.label)
+      if fn.fstate ≠ .volatile then s.writeFile f .planned (some none) else pure s
+    else pure s
+  | none => pure s
+
+def KState.pendIfNot (s : KState) (n : Node) : M KState :=
+  if n.sstate ≠ .pending then s.writeStepState n.key .pending none else pure s
+
+/-- One unneeded step: back to PENDING (raw update of the state), its outputs queued and reset. -/
+def KState.revertStep (s : KState) (n : Node) : M KState := do
+  let st ← s.pendIfNot n
+  (st.sinksOf n.key).foldlM (fun st f => st.revertOutput f) st
+
 /-- `finalize.revert_optional_steps` -/
-def KState.revertOptional (s : KState) : M KState := do
-  let steps := s.nodes.filter fun n => n.key.kind = .step ∧ !n.detached ∧ n.impliedNeed = .optional
-  let mut st := s
-  for n in steps do
-    if n.sstate ≠ .pending then st ← st.writeStepState n.key .pending none
-    for f in st.sinksOf n.key do
-      match st.find? f with
-      | some fn =>
-        if fn.key.kind = .file ∧ (fn.fstate = .volatile ∨ fn.fstate = .built ∨ fn.fstate = .outdated) then
-          st := st.queueDelete f.label (if fn.fstate = .volatile then none else fn.fhash)
-          st := st.markDirToBeDeleted (parentDir f.label)
-          if fn.fstate ≠ .volatile then st ← st.writeFile f .planned (some none)
-      | none => pure ()
-  pure st
+def KState.revertOptional (s : KState) : M KState :=
+  (s.nodes.filter fun n => n.key.kind = .step ∧ !n.detached ∧ n.impliedNeed = .optional).foldlM
+    (fun st n => st.revertStep n) s
 
 /-- `startup.reset_interrupted_steps` (both transactions). -/
 def KState.resetInterrupted (s : KState) : M KState := do
-  let mut st := s
-  for n in s.nodes do
-    if n.key.kind = .step ∧ n.sstate = .running then st ← st.writeStepState n.key .failed none
-  for n in s.nodes do
-    if n.key.kind = .step ∧ n.sstate = .checking then st ← st.writeStepState n.key .pending none
-  let failed := st.nodes.filter fun n => n.key.kind = .step ∧ !n.detached ∧ n.sstate = .failed
-  for n in failed do
-    st ← st.markStepPending n.key
-  pure st
+  let st ← (s.nodes.filter fun n => n.key.kind = .step ∧ n.sstate = .running).foldlM
+    (fun st n => st.writeStepState n.key .failed none) s
+  let st ← (s.nodes.filter fun n => n.key.kind = .step ∧ n.sstate = .checking).foldlM
+    (fun st n => st.writeStepState n.key .pending none) st
+  (st.nodes.filter fun n => n.key.kind = .step ∧ !n.detached ∧ n.sstate = .failed).foldlM
+    (fun st n => st.markStepPending n.key) st
 
 /-- `startup.rescan_env_vars` against the director's current environment. -/
 def KState.rescanEnvVars (s : KState) (cfg : KConfig) : M KState := do
